@@ -33,6 +33,11 @@ func descLoop(ds []Desc) []byte {
 
 // section wraps a body (everything after section_length, before CRC) in a long-form section.
 func section(tableID byte, private bool, ext uint16, version byte, cn bool, body []byte) []byte {
+	return sectionNumbered(tableID, private, ext, version, cn, 0, 0, body)
+}
+
+// sectionNumbered: the same with section_number / last_section_number.
+func sectionNumbered(tableID byte, private bool, ext uint16, version byte, cn bool, secNum, lastSec byte, body []byte) []byte {
 	var w BitWriter
 	w.Put(8, uint64(tableID))
 	w.Flag(true) // section_syntax_indicator
@@ -43,8 +48,8 @@ func section(tableID byte, private bool, ext uint16, version byte, cn bool, body
 	w.Ones(2)
 	w.Put(5, uint64(version))
 	w.Flag(cn)
-	w.Put(8, 0) // section_number
-	w.Put(8, 0) // last_section_number
+	w.Put(8, uint64(secNum))
+	w.Put(8, uint64(lastSec))
 	w.Bytes(body)
 	return WithCRC(w.Out())
 }
@@ -81,6 +86,9 @@ type PATSection struct {
 	Version     byte       `json:"version"`
 	CurrentNext bool       `json:"current_next"`
 	Entries     []PATEntry `json:"entries"`
+	// section_number / last_section_number (a table split over several sections; each section is decoded on its own)
+	SectionNumber     byte `json:"section_number,omitempty"`
+	LastSectionNumber byte `json:"last_section_number,omitempty"`
 }
 
 func (s PATSection) Bytes() []byte {
@@ -90,7 +98,7 @@ func (s PATSection) Bytes() []byte {
 		w.Put(3, uint64(e.Reserved))
 		w.Put(13, uint64(e.PID))
 	}
-	return section(0x00, false, s.TSID, s.Version, s.CurrentNext, w.Out())
+	return sectionNumbered(0x00, false, s.TSID, s.Version, s.CurrentNext, s.SectionNumber, s.LastSectionNumber, w.Out())
 }
 
 // OtherSection is a complete foreign (private, long-form) section with n body bytes.
